@@ -915,7 +915,9 @@ def rule_A11(ctx):
     E = get_effects(ctx)
     r = RuleResult('A11', 'operators, slicing and copies of mutable classes return new objects, never self or an operand')
     n = 0
-    for c in sorted(MUTABLE):
+    # ConstBitStream is immutable in content but carries a position: an operation handing back the receiver itself hands out
+    # that position too (reading from the "copy" moves the original), and C06 wants every returned stream to start at 0
+    for c in sorted(MUTABLE) + ['ConstBitStream']:
         for name, f in public_roots(ctx, c):
             if f.is_classmethod() or f.is_staticmethod() or name in ('__new__', '__init__'):
                 continue
@@ -940,8 +942,11 @@ def rule_A11(ctx):
                             if binds and all(b[0] in ('param', 'view') for b in binds):
                                 bad = 'an operand (possibly the caller\'s own object)'
                     if bad:
-                        r.fail(f.key, f'{c}.{name}: {norm(ret)}', f"{c}.{name} returns {bad}: the 'new' bitstring and the original are one mutable "
-                               'object, so mutating either changes the other', loc=f.loc(ret), extra={'ctx': c})
+                        what = ("the 'new' stream and the original are one object with one bit position, so reading from either moves the other "
+                                "(and the returned stream does not start at 0)" if c == 'ConstBitStream' else
+                                "the 'new' bitstring and the original are one mutable object, so mutating either changes the other")
+                        r.fail(f.key, f'{c}.{name}: {norm(ret)}', f"{c}.{name} returns {bad}: {what}", loc=f.loc(ret),
+                               extra={'ctx': c, 'props': ['C06', 'C04', 'C08', 'C16', 'C01']} if c == 'ConstBitStream' else {'ctx': c})
                     else:
                         r.ok(f'{c}.{name}:{norm(ret)}')
     if n < 40:
